@@ -106,6 +106,13 @@ def build_pool(S, rng, n):
     u3 = globals()["UserBBAN"]("DE", t0[4:])
     u3.note = "x"
     pool += [("IBAN_subclass", u1), ("IBAN", S.IBAN(t0)), ("BIC_subclass", u2), ("BIC", S.BIC("GENODEM1GLS")), ("BBAN_subclass", u3), ("BBAN", S.BBAN("DE", t0[4:]))]
+    # texts as the operating system hands them over (surrogateescape-decoded bytes: lone surrogates), astral
+    # characters, NUL - as plain strings and as unvalidated objects
+    for odd in ("DE8937040044053201300\udce9", "\udc80", "DEUTDEFF\udcff", "DE89\U0001F600", "DE89\x00", "\ud800DE89"):
+        pool.append(("str", odd))
+        pool.append(("IBAN_unvalidated", S.IBAN(odd, allow_invalid=True)))
+        pool.append(("BIC_unvalidated", S.BIC(odd, allow_invalid=True)))
+        pool.append(("BBAN", S.BBAN("DE", odd)))
     # unvalidated objects far longer than anything valid (a pasted line), and empty ones
     for n_ in (65, 129, 300, 5000):
         junk = "".join(rng.choice("ABCDEFGH0123456789 -") for _ in range(n_))
@@ -272,6 +279,18 @@ def run_shard(shard, out_base):
                     diff = sorted(k for k in set(st) | set(st2) if st.get(k) != st2.get(k))
                     mon.viol(f"{kind}_not_equal:{la}:{'+'.join(diff)[:60]}", w, st, st2)
                 mon.tally("copies_checked")
+            if type(a).__name__ in ("BBAN", "IBAN"):
+                # the object (or its BBAN) used as the value of a constructor call for another country: a new object;
+                # this one - and the copies made of it above - stay what they were
+                inner = a if type(a).__name__ == "BBAN" else getattr(a, "bban", None)
+                if inner is not None:
+                    other_cc = "PL" if getattr(inner, "country_code", "") != "PL" else "HU"
+                    on = observe(S.BBAN, other_cc, inner)
+                    if on.ok and (on.value.country_code != other_cc or on.value is inner):
+                        mon.viol("bban_constructor_returned_its_argument", {"object": [la, esc(sa)], "requested_country": other_cc}, "a new object of the requested country", [getattr(on.value, "country_code", None), "same object" if on.value is inner else "other object"])
+                    if state(a) != st:
+                        mon.viol(f"object_changed_after_use_as_constructor_argument:{la}", {"object": [la, esc(sa)], "requested_country": other_cc}, st, state(a))
+                        st = state(a)
     if part == 0:
         # containers: objects with equal compact strings but different class / country, copied together
         groups: dict = {}
